@@ -510,6 +510,8 @@ class Interp:
         self.constructible: set[str] = set()  # qualified class names whose constructor calls are followed (through __init__)
         self.watch_constructors: set[str] = set()  # qualified class names whose construction is recorded, not followed
         self.globals_override: dict = {}  # (module name, identifier) -> value of a module-level object built by the caller
+        self.watch_externals: dict[str, Any] = {}  # external path -> stand-in result; the calls are recorded in external_calls
+        self.external_calls: list[tuple[str, list, dict]] = []
         self.depth = 0
 
     # ------------------------------------------------------------------ helpers
@@ -656,6 +658,9 @@ class Interp:
 
     # ------------------------------------------------------------------ externals
     def external(self, path: str, args: list, kwargs: dict) -> Any:
+        if path in self.watch_externals:
+            self.external_calls.append((path, list(args), dict(kwargs)))
+            return self.watch_externals[path]
         for long, short in (('jax.numpy.', 'jnp.'), ('numpy.', 'jnp.'), ('jax.tree_util.tree_', 'jax.tree.'), ('jax.tree_util.', 'jax.tree.'), ('jax.lax.', 'lax.')):
             if path.startswith(long):
                 path = short + path[len(long):]
@@ -947,6 +952,21 @@ class Interp:
         if isinstance(v, Obj):
             if name in v.attrs:
                 return v.attrs[name]
+            if '__record_fields__' in v.attrs and name in ('_asdict', '_fields', '_replace'):
+                fields_ = v.attrs['__record_fields__']
+                if name == '_fields':
+                    return tuple(fields_)
+                if name == '_asdict':
+                    return lambda: {n_: v.attrs[n_] for n_ in fields_}
+
+                def _replace(**changes: Any) -> Any:
+                    if any(k_ not in fields_ for k_ in changes):
+                        raise Raised('ValueError')
+                    new_ = Obj(v.cls, dict(v.attrs))
+                    new_.attrs.update(changes)
+                    return new_
+
+                return _replace
             return self.class_attr(v.cls, name, v)
         if isinstance(v, ClassRef):
             if name == '__mro__':
